@@ -1,27 +1,30 @@
 (* Sympytools.v — mirror of sympytools.rhs_matrix / states_matrix / jacobi_matrix:
      expanded = {}
-     for x in sorted_assignments: if x is an intermediate: expanded[x] = x.expr.xreplace(expanded)
+     for x in sorted_assignments: expanded[x] = x.expr.xreplace(expanded)   (intermediates and state derivatives)
      rhs = [d.expr for d in sorted_state_derivatives]
-     while any(rhs.has(k) for k in intermediates) and tries < max_tries: rhs = rhs.xreplace(expanded)
+     while any(rhs.has(k) for k in expanded) and tries < max_tries: rhs = rhs.xreplace(expanded)
      if tries == max_tries: raise
-   (xreplace substitutes all intermediates simultaneously, once per round; the expansion of the
-   intermediates in dependency order is the repaired behaviour, fix for C20), and the Jacobian as the
+   (xreplace substitutes all definitions simultaneously, once per round; the expansion of the
+   definitions in dependency order is the repaired behaviour, fix for C20; state derivatives are definitions
+   too because an intermediate may read one - second fix for C20), and the Jacobian as the
    symbolic derivative D of every entry with respect to every state. *)
 From GX Require Import Base Expr Topo Ode Target Sem Schemes.
 Open Scope string_scope.
 Open Scope list_scope.
 
 Definition inter_subst (o : ode) (x : string) : option expr :=
-  match find (fun a => String.eqb (a_name a) x) (o_inters o) with
+  match find_assign o x with
   | Some a => Some (a_expr a)
   | None => None
   end.
 
-Definition mentions_inter (o : ode) (e : expr) : bool := existsb (is_inter_name o) (vars e).
+(* a name with a definition: intermediate or state derivative *)
+Definition is_assigned (o : ode) (x : string) : bool := mem x (map a_name (assigns o)).
+Definition mentions_assigned (o : ode) (e : expr) : bool := existsb (is_assigned o) (vars e).
 
 (* the dictionary of expanded intermediates, built in the order of sorted_assignments *)
 Definition expand_step (o : ode) (acc : list (string * expr)) (n : string) : list (string * expr) :=
-  match find (fun a => String.eqb (a_name a) n) (o_inters o) with
+  match find_assign o n with
   | Some a => acc ++ [(n, subst (fun y => lookup y acc) (a_expr a))]
   | None => acc
   end.
@@ -34,7 +37,7 @@ Fixpoint rhs_loop (fuel : nat) (o : ode) (sb : string -> option expr) (es : list
   : list expr * nat :=
   match fuel with
   | O => (es, tries)
-  | S f => if existsb (mentions_inter o) es
+  | S f => if existsb (mentions_assigned o) es
            then rhs_loop f o sb (map (subst sb) es) (S tries)
            else (es, tries)
   end.
@@ -52,8 +55,8 @@ Definition rhs_matrix (o : ode) (max_tries : nat) : option (list expr) :=
   | None => None
   end.
 
-(* the repaired default: number of intermediates + 1 rounds *)
-Definition default_tries (o : ode) : nat := S (length (o_inters o)).
+(* the repaired default: number of definitions + 1 rounds *)
+Definition default_tries (o : ode) : nat := S (length (assigns o)).
 
 Definition jacobian (o : ode) (max_tries : nat) : option (list (list expr)) :=
   match rhs_matrix o max_tries, sorted_states o with
@@ -66,8 +69,7 @@ Section Meaning.
   Context {T : Type} (N : NumOps T) (o : ode).
   Variable rho : string -> T.
   (* rho gives every assigned name the value of its defining expression (the documented meaning) *)
-  Hypothesis consistent : forall x a, find (fun a => String.eqb (a_name a) x) (o_inters o) = Some a ->
-                                       rho x = eval N rho (a_expr a).
+  Hypothesis consistent : forall x a, find_assign o x = Some a -> rho x = eval N rho (a_expr a).
 
   (* a substitution whose entries have the value of the name they replace *)
   Definition sound_subst (sb : string -> option expr) : Prop :=
@@ -82,7 +84,7 @@ Section Meaning.
   Lemma inter_subst_sound : sound_subst (inter_subst o).
   Proof.
     intros x e H. unfold inter_subst in H.
-    destruct (find (fun a => String.eqb (a_name a) x) (o_inters o)) as [a|] eqn:E; [|discriminate].
+    destruct (find_assign o x) as [a|] eqn:E; [|discriminate].
     injection H as <-. apply consistent. exact E.
   Qed.
 
@@ -93,7 +95,7 @@ Section Meaning.
                             sound_subst (fun x => lookup x (fold_left (expand_step o) ord acc))).
     { induction ord as [|n ord IH]; intros acc Hacc; [exact Hacc|]. simpl. apply IH.
       unfold expand_step.
-      destruct (find (fun a => String.eqb (a_name a) n) (o_inters o)) as [a|] eqn:E; [|exact Hacc].
+      destruct (find_assign o n) as [a|] eqn:E; [|exact Hacc].
       intros x e Hl. rewrite lookup_app in Hl. destruct (lookup x acc) as [e0|] eqn:E0.
       - injection Hl as <-. apply Hacc. exact E0.
       - simpl in Hl. destruct (String.eqb_spec x n) as [->|]; [|discriminate]. injection Hl as <-.
@@ -105,7 +107,7 @@ Section Meaning.
     map (eval N rho) (fst (rhs_loop fuel o sb es tries)) = map (eval N rho) es.
   Proof.
     intros Hsb. induction fuel as [|f IH]; intros es tries; simpl; [reflexivity|].
-    destruct (existsb (mentions_inter o) es); [|reflexivity].
+    destruct (existsb (mentions_assigned o) es); [|reflexivity].
     rewrite IH, map_map. apply map_ext. intros e. apply subst_round_preserves. exact Hsb.
   Qed.
 
@@ -123,25 +125,25 @@ Section Meaning.
   Qed.
 End Meaning.
 
-(* when the loop stops before the bound, no intermediate is left: every intermediate is expanded *)
+(* when the loop stops before the bound, no defined name is left: every intermediate and derivative is expanded *)
 Lemma rhs_loop_tries fuel o sb : forall es tries, tries <= snd (rhs_loop fuel o sb es tries) <= tries + fuel.
 Proof.
   induction fuel as [|f IH]; intros es tries; simpl; [lia|].
-  destruct (existsb (mentions_inter o) es); simpl; [|lia].
+  destruct (existsb (mentions_assigned o) es); simpl; [|lia].
   specialize (IH (map (subst sb) es) (S tries)). lia.
 Qed.
 
 Lemma rhs_loop_done fuel o sb : forall es tries,
   snd (rhs_loop fuel o sb es tries) < tries + fuel ->
-  existsb (mentions_inter o) (fst (rhs_loop fuel o sb es tries)) = false.
+  existsb (mentions_assigned o) (fst (rhs_loop fuel o sb es tries)) = false.
 Proof.
   induction fuel as [|f IH]; intros es tries H; simpl in *; [lia|].
-  destruct (existsb (mentions_inter o) es) eqn:E; simpl in *; [|exact E].
+  destruct (existsb (mentions_assigned o) es) eqn:E; simpl in *; [|exact E].
   apply IH. lia.
 Qed.
 
 Theorem rhs_matrix_fully_expanded o max_tries es :
-  rhs_matrix o max_tries = Some es -> existsb (mentions_inter o) es = false.
+  rhs_matrix o max_tries = Some es -> existsb (mentions_assigned o) es = false.
 Proof.
   unfold rhs_matrix. destruct (sorted_names o false) as [ord|]; [|discriminate].
   destruct (rhs_loop max_tries o (exp_subst o ord) (rhs_init o ord) 0) as [es' n] eqn:E.
